@@ -211,8 +211,9 @@ impl ServerCertVerifier for CustomCertVerifier {
                 Ok(ServerCertVerified::assertion())
             }
 
-            Err(rustls::Error::InvalidCertificate(rustls::CertificateError::NotValidForName))
-                if self.accept_invalid_hostnames =>
+            Err(rustls::Error::InvalidCertificate(
+                rustls::CertificateError::NotValidForName | rustls::CertificateError::NotValidForNameContext { .. },
+            )) if self.accept_invalid_hostnames =>
             {
                 Ok(ServerCertVerified::assertion())
             }
